@@ -2,59 +2,22 @@ package main
 
 import (
 	"flag"
-	"fmt"
 	"os"
-	"sort"
 
 	"verifharness/h"
 )
 
 func main() {
-	prop := flag.String("prop", "smoke", "property id")
-	seed := flag.Uint64("seed", 1, "seed")
-	from := flag.Int("from", 0, "first case")
-	cases := flag.Int("cases", 100, "number of cases")
-	tier := flag.String("tier", "quick", "tier")
-	out := flag.String("out", "", "report file")
-	replay := flag.String("replay", "", "witness file to replay")
+	a := &h.Args{}
+	flag.StringVar(&a.Prop, "prop", "", "property id")
+	flag.Uint64Var(&a.Seed, "seed", 1, "seed")
+	flag.IntVar(&a.From, "from", 0, "first case")
+	flag.IntVar(&a.Cases, "cases", 100, "number of cases")
+	flag.StringVar(&a.Tier, "tier", "quick", "tier")
+	flag.StringVar(&a.Mode, "mode", "", "sub-workload")
+	flag.StringVar(&a.Flavor, "flavor", "std", "build flavor name")
+	flag.StringVar(&a.Out, "out", "", "report file")
+	flag.StringVar(&a.Replay, "replay", "", "witness file to replay")
 	flag.Parse()
-	if *prop == "smoke" {
-		smoke(*seed, *from, *cases)
-		return
-	}
-	os.Exit(h.DrvMain(*prop, *seed, *from, *cases, *tier, *out, *replay))
-}
-
-func smoke(seed uint64, from, cases int) {
-	kinds := map[string]int{}
-	first := map[string]string{}
-	for c := from; c < from+cases; c++ {
-		r := h.NewRng(seed, uint64(c))
-		cfg := h.GenCfg(r, 0)
-		p := h.DefaultProfile()
-		p.Late = []string{"F900", "S11", "X5"}
-		s := h.RunHistory(r, cfg, h.Opts{Model: true, Sweep: true, Inv: true, Events: true, Cache: true, Ledger: true, Targets: true}, p)
-		if s.Failed() {
-			v := s.Viol[0]
-			kinds[v.Kind]++
-			if _, ok := first[v.Kind]; !ok {
-				msg := v.Msg
-				if len(msg) > 400 {
-					msg = msg[:400]
-				}
-				first[v.Kind] = fmt.Sprintf("case %d step %d types=%d: %s\n     op=%s", c, v.Step, len(cfg.Types), msg, v.Op)
-			}
-		}
-	}
-	ks := []string{}
-	for k := range kinds {
-		ks = append(ks, k)
-	}
-	sort.Strings(ks)
-	tot := 0
-	for _, k := range ks {
-		fmt.Printf("%5d %s\n   %s\n", kinds[k], k, first[k])
-		tot += kinds[k]
-	}
-	fmt.Printf("failed %d of %d\n", tot, cases)
+	os.Exit(h.DrvMain(a))
 }
